@@ -667,4 +667,6 @@ class FakeClient:
                 continue
             rec['attempts'] = attempts
             s.emit('body.phase', call=rec['id'], phase='done')
-            return data
+            # the "server" keeps its own copy: reading a whole BytesIO can hand back the very object
+            # the library buffered, and holding on to it would look like the library keeping it alive
+            return bytes(bytearray(data))
